@@ -44,6 +44,72 @@ def runDet (s : DetState Float) (x : Array (Cx Float)) : List Nat → Nat → Li
     | .ok (s', some r) =>
       runDet s' x rest (pos + len) (("1 " ++ toString r.offset ++ " " ++ fmtF r.score ++ " " ++ fmtCxArr r.preamble) :: acc)
 
+/-! ### `det2`: call HISTORIES of one detector (process / rejected process / empty process / reset) on explicit or generated streams -/
+
+/-- splitmix64 finaliser (the harness's `mix64`) -/
+def mix64 (z : UInt64) : UInt64 :=
+  let z := (z ^^^ (z >>> 30)) * 0xbf58476d1ce4e5b9
+  let z := (z ^^^ (z >>> 27)) * 0x94d049bb133111eb
+  z ^^^ (z >>> 31)
+
+/-- the harness's `bg_val`: kind 0 `+0`, kind 2 `-0`, kind 1 `((z >> 11) - 2^52) * 2^(k-52)` (exact in double) -/
+def bgVal (kind : Nat) (seed : UInt64) (k : Int) (idx : Nat) : Float :=
+  if kind == 0 then 0.0
+  else if kind == 2 then -0.0
+  else
+    let z := mix64 (seed + (UInt64.ofNat (idx + 1)) * 0x9e3779b97f4a7c15)
+    Float.scaleB ((z >>> 11).toFloat - 4503599627370496.0) (k - 52)
+
+/-- overwrite `v.size` samples ending at index `e` -/
+def insertAt (x : Array (Cx Float)) (e : Nat) (v : Array (Cx Float)) : Array (Cx Float) :=
+  (List.range v.size).foldl (fun (x : Array (Cx Float)) j => x.setIfInBounds (e + 1 - v.size + j) (v.getD j ⟨0.0, 0.0⟩)) x
+
+def takeInsertions : Nat → List String → Option (List (Nat × Array (Cx Float)) × List String)
+  | 0, r => some ([], r)
+  | n + 1, r => do
+    let e ← (← r.head?).toNat?
+    let (v, r) ← takeCxs r.tail
+    let (vs, r) ← takeInsertions n r
+    pure ((e, v) :: vs, r)
+
+/-- `X <cxarr>` or `G kind seed k n nins (e <cxarr>)*` -/
+def takeStream : List String → Option (Array (Cx Float) × List String)
+  | "X" :: rest => takeCxs rest
+  | "G" :: kind :: seed :: k :: n :: nins :: rest => do
+    let kind ← kind.toNat?
+    let seed ← seed.toNat?
+    let k ← parseI k
+    let n ← n.toNat?
+    let nins ← nins.toNat?
+    let (ins, rest) ← takeInsertions nins rest
+    let sd := UInt64.ofNat seed
+    let x : Array (Cx Float) := Array.ofFn (n := n) fun i => ⟨bgVal kind sd k (2 * i.val), bgVal kind sd k (2 * i.val + 1)⟩
+    pure (ins.foldl (fun x (ev : Nat × Array (Cx Float)) => insertAt x ev.1 ev.2) x, rest)
+  | _ => none
+
+/-- `nrun (cnt L)*` → the expanded list of operations -/
+def takeOps : Nat → List String → Option (List Int)
+  | 0, _ => some []
+  | n + 1, c :: l :: rest => do
+    let c ← c.toNat?
+    let l ← parseI l
+    let tl ← takeOps n rest
+    pure (List.replicate c l ++ tl)
+  | _, _ => none
+
+/-- run a script: `L > 0` process the next `L` samples (a rejected length prints `ERR` and leaves the state untouched), `0` an empty call, `-1` `reset()` -/
+def runOps (s : DetState Float) (x : Array (Cx Float)) : List Int → Nat → Nat → List String → String
+  | [], _, k, acc => String.intercalate " " (("END " ++ toString k) :: acc).reverse
+  | op :: rest, pos, k, acc =>
+    if op < 0 then runOps (detReset fftc18 ifft18 s) x rest pos (k + 1) acc
+    else
+      let len := op.toNat
+      match detProcess fftc18 ifft18 s (x.extract pos (pos + len)) with
+      | .error _ => runOps s x rest (pos + len) (k + 1) ((toString k ++ " ERR") :: acc)
+      | .ok (s', none) => runOps s' x rest (pos + len) (k + 1) acc
+      | .ok (s', some r) =>
+        runOps s' x rest (pos + len) (k + 1) ((toString k ++ " D " ++ toString r.offset ++ " " ++ fmtF r.score ++ " " ++ fmtCxArr r.preamble) :: acc)
+
 def fmtGcc (fs : Int) (r : Float × Array (Cx Float)) : String :=
   toString (MathFns.argmax MathFns.clt r.2.toList) ++ " " ++ fmtF (r.1 * Float.ofInt fs)
 
@@ -95,6 +161,14 @@ def h18 : List String → Option String
     let (x, _) ← takeCxs rest
     let s0 := detInit fftc18 h thr
     some (toString s0.frameLen ++ " " ++ runDet s0 x fpc 0 [])
+  | "det2" :: thr :: rest => do
+    let thr ← parseF thr
+    let (h, rest) ← takeCxs rest
+    let (x, rest) ← takeStream rest
+    let nrun ← (← rest.head?).toNat?
+    let ops ← takeOps nrun rest.tail
+    let s0 := detInit fftc18 h thr
+    some (toString s0.frameLen ++ " " ++ runOps s0 x ops 0 0 [])
   | _ => none
 
 end Dsp.Driver
